@@ -38,8 +38,15 @@ func c18AccessList() ethtypes.AccessList {
 }
 
 func c18To() *common.Address {
-	if zz.Choose("to", 2) == 0 {
+	switch zz.Choose("to", 4) {
+	case 0:
 		return nil // contract creation
+	case 1:
+		a := common.Address{} // the all-zero address is an ordinary recipient, not "no recipient"
+		return &a
+	case 2:
+		a := common.HexToAddress("0x0000000000000000000000000000000000000001") // leading zero bytes
+		return &a
 	}
 	a := common.HexToAddress("0xAbCdEf0123456789abcdef0123456789ABCDEF01")
 	return &a
